@@ -1,8 +1,8 @@
 (* C30 — numeric precision settings.  Executable definitions only (no proofs).
    set_decimal_config of duckdb_transpiler/Config/config.py as a pure function of the two environment variables
    (None = unset) and the module globals DECIMAL_WIDTH / DECIMAL_SCALE; DECIMAL(w,s) values as Z scaled by 10^s.
-   Two variants: `_spec` = docs/environment_variables.rst, `_impl` = faithful to the code (the correspondence and the
-   regenerated function table are checked against `_impl`; after a repair of the engine the table must equal `_spec`). *)
+   `_spec` = docs/environment_variables.rst = the code since its repair (the regenerated function table and the correspondence
+   are checked against it); `_prefix` = the code before the repair, kept only for regression witnesses. *)
 From Coq Require Import ZArith List Bool.
 Import ListNotations.
 Open Scope Z_scope.
@@ -19,38 +19,40 @@ Record globals := mkG { g_w : Z; g_s : Z }.
 
 Inductive cfgvar := VarWidth | VarScale.
 
-(* In both cases the last argument is the state of the module globals AFTER the call. *)
+(* In both cases the last argument is the state of the module globals AFTER the call;
+   Rejected = RunTimeError 0-4-1-1 naming variable v and reporting the value `bad`. *)
 Inductive cfg_result :=
   | Accepted (g : globals)
-  | Rejected (v : cfgvar) (g : globals).      (* RunTimeError 0-4-1-1 naming variable v *)
+  | Rejected (v : cfgvar) (bad : Z) (g : globals).
 
 Definition defaults (k : consts) : globals := mkG (c_def_w k) (c_def_s k).
 Definition eff (disable maxv v : Z) : Z := if v =? disable then maxv else v.
 Definition from_env (e : option Z) (dflt : Z) : Z := match e with Some v => v | None => dflt end.
 
-(* --- faithful to the code:
+(* --- documented behaviour = the code since the repair of set_decimal_config:
+     width = int(os.getenv(VAR, DEFAULT_DECIMAL_WIDTH)), scale likewise   -- an unset variable is its documented default
+     -1 -> MAX;  scale range check;  width range check (both bounds on the width);
+     the module globals are assigned only after validation (a rejected call leaves them as they were) *)
+Definition set_decimal_config_spec (k : consts) (ew es : option Z) (g : globals) : cfg_result :=
+  let w1 := eff (c_disable k) (c_max_w k) (from_env ew (c_def_w k)) in
+  let s1 := eff (c_disable k) (c_max_s k) (from_env es (c_def_s k)) in
+  if (s1 <? c_min_s k) || (s1 >? c_max_s k) then Rejected VarScale s1 g
+  else if (w1 <? c_min_w k) || (w1 >? c_max_w k) then Rejected VarWidth w1 g
+  else Accepted (mkG w1 s1).
+
+(* --- the code BEFORE that repair (kept for the regression witnesses only; not tied to the current tree):
      DECIMAL_WIDTH = int(os.getenv(VAR, DECIMAL_WIDTH))     -- default = the CURRENT global, assigned before validation
      -1 -> MAX;  scale range check;  then `DECIMAL_WIDTH < MIN_DECIMAL_WIDTH or DECIMAL_SCALE > MAX_DECIMAL_WIDTH` *)
-Definition set_decimal_config_impl (k : consts) (ew es : option Z) (g : globals) : cfg_result :=
+Definition set_decimal_config_prefix (k : consts) (ew es : option Z) (g : globals) : cfg_result :=
   let w1 := eff (c_disable k) (c_max_w k) (from_env ew (g_w g)) in
   let s1 := eff (c_disable k) (c_max_s k) (from_env es (g_s g)) in
   let g' := mkG w1 s1 in
-  if (s1 <? c_min_s k) || (s1 >? c_max_s k) then Rejected VarScale g'
-  else if (w1 <? c_min_w k) || (s1 >? c_max_w k) then Rejected VarWidth g'
+  if (s1 <? c_min_s k) || (s1 >? c_max_s k) then Rejected VarScale s1 g'
+  else if (w1 <? c_min_w k) || (s1 >? c_max_w k) then Rejected VarWidth w1 g'
   else Accepted g'.
 
-(* --- documented: an unset variable means its documented default, each variable is checked against its own range,
-       nothing depends on earlier calls (the state argument is ignored; the result carries the configuration of this run) *)
-Definition set_decimal_config_spec (k : consts) (ew es : option Z) (_ : globals) : cfg_result :=
-  let w1 := eff (c_disable k) (c_max_w k) (from_env ew (c_def_w k)) in
-  let s1 := eff (c_disable k) (c_max_s k) (from_env es (c_def_s k)) in
-  let g' := mkG w1 s1 in
-  if (s1 <? c_min_s k) || (s1 >? c_max_s k) then Rejected VarScale g'
-  else if (w1 <? c_min_w k) || (w1 >? c_max_w k) then Rejected VarWidth g'
-  else Accepted g'.
-
-Definition accepted (r : cfg_result) : bool := match r with Accepted _ => true | Rejected _ _ => false end.
-Definition state_after (r : cfg_result) : globals := match r with Accepted g => g | Rejected _ g => g end.
+Definition accepted (r : cfg_result) : bool := match r with Accepted _ => true | Rejected _ _ _ => false end.
+Definition state_after (r : cfg_result) : globals := match r with Accepted g => g | Rejected _ _ g => g end.
 
 (* a value of an environment variable is in its documented range *)
 Definition in_doc (d : docrange) (v : Z) : Prop := v = d_disable d \/ (d_lo d <= v <= d_hi d).
@@ -70,7 +72,7 @@ Inductive run_outcome :=
 Definition run_config (f : option Z -> option Z -> globals -> cfg_result) (ew es : option Z) (g : globals)
   : run_outcome * globals :=
   match f ew es g with
-  | Rejected v g' => (CfgRejected v, g')
+  | Rejected v _ g' => (CfgRejected v, g')
   | Accepted g' => (if decimal_type_ok (g_w g') (g_s g') then CfgOk (g_w g') (g_s g') else RawBinder, g')
   end.
 
@@ -90,37 +92,52 @@ Fixpoint run_sequence_states (f : option Z -> option Z -> globals -> cfg_result)
   | (ew, es) :: t => let g' := snd (run_config f ew es g) in (g_w g', g_s g') :: run_sequence_states f g' t
   end.
 
-(* --- the regenerated function table (Gen/Config.v) and its encoding *)
-Definition enc_result (r : cfg_result) : Z * Z * Z :=
+(* --- the regenerated function table (Gen/Config.v) and its encoding: (kind, reported value, width after, scale after) *)
+Definition enc_result (r : cfg_result) : Z * Z * Z * Z :=
   match r with
-  | Accepted g => (0, g_w g, g_s g)
-  | Rejected VarScale g => (1, g_w g, g_s g)
-  | Rejected VarWidth g => (2, g_w g, g_s g)
+  | Accepted g => (0, 0, g_w g, g_s g)
+  | Rejected VarScale bad g => (1, bad, g_w g, g_s g)
+  | Rejected VarWidth bad g => (2, bad, g_w g, g_s g)
   end.
+
+(* how a dumped row states the globals after the call: explicitly, or "as before the call" *)
+Inductive post := PNew (w s : Z) | PSame.
+Definition dec_row (g : globals) (row : Z * Z * post) : Z * Z * Z * Z :=
+  let '(k, bad, p) := row in match p with PNew w s => (k, bad, w, s) | PSame => (k, bad, g_w g, g_s g) end.
 
 Definition oz_eqb (a b : option Z) : bool :=
   match a, b with Some x, Some y => x =? y | None, None => true | _, _ => false end.
 Definition g_eqb (a b : globals) : bool := (g_w a =? g_w b) && (g_s a =? g_s b).
-Definition r3_eqb (a b : Z * Z * Z) : bool :=
-  let '(a1, a2, a3) := a in let '(b1, b2, b3) := b in (a1 =? b1) && (a2 =? b2) && (a3 =? b3).
-Definition or3_eqb (a b : option (Z * Z * Z)) : bool :=
-  match a, b with Some x, Some y => r3_eqb x y | None, None => true | _, _ => false end.
+Definition r4_eqb (a b : Z * Z * Z * Z) : bool :=
+  let '(a1, a2, a3, a4) := a in let '(b1, b2, b3, b4) := b in (a1 =? b1) && (a2 =? b2) && (a3 =? b3) && (a4 =? b4).
+Definition or4_eqb (a b : option (Z * Z * Z * Z)) : bool :=
+  match a, b with Some x, Some y => r4_eqb x y | None, None => true | _, _ => false end.
 
 Fixpoint assoc_by {K V} (eqb : K -> K -> bool) (k : K) (l : list (K * V)) : option V :=
   match l with [] => None | (k', v) :: t => if eqb k k' then Some v else assoc_by eqb k t end.
 
-(* decompression of the dumped table: rows with both variables set are stored once (the translator verified that the
-   real function gave the same answer under every prior), the others per prior *)
-Definition code_table (tab_both : list ((Z * Z) * (Z * Z * Z)))
-           (tab_unset : list (globals * list ((option Z * option Z) * (Z * Z * Z))))
-           (g : globals) (ew es : option Z) : option (Z * Z * Z) :=
-  match ew, es with
-  | Some w, Some s => assoc_by (fun a b => (fst a =? fst b) && (snd a =? snd b)) (w, s) tab_both
-  | _, _ => match assoc_by g_eqb g tab_unset with
-            | Some rows => assoc_by (fun a b => oz_eqb (fst a) (fst b) && oz_eqb (snd a) (snd b)) (ew, es) rows
-            | None => None
-            end
-  end.
+(* decompression of the dumped table: a row with both variables set is stored once when ONE row (with the globals stated
+   explicitly or "as before") describes the real function's answer under every prior — the translator checks that against
+   every prior before writing it; all other rows are stored per prior *)
+Definition code_table (tab_both : list ((Z * Z) * (Z * Z * post)))
+           (tab_unset : list (globals * list ((option Z * option Z) * (Z * Z * post))))
+           (g : globals) (ew es : option Z) : option (Z * Z * Z * Z) :=
+  let row :=
+    match ew, es with
+    | Some w, Some s =>
+        match assoc_by (fun a b => (fst a =? fst b) && (snd a =? snd b)) (w, s) tab_both with
+        | Some r => Some r
+        | None => match assoc_by g_eqb g tab_unset with
+                  | Some rows => assoc_by (fun a b => oz_eqb (fst a) (fst b) && oz_eqb (snd a) (snd b)) (ew, es) rows
+                  | None => None
+                  end
+        end
+    | _, _ => match assoc_by g_eqb g tab_unset with
+              | Some rows => assoc_by (fun a b => oz_eqb (fst a) (fst b) && oz_eqb (snd a) (snd b)) (ew, es) rows
+              | None => None
+              end
+    end in
+  match row with Some r => Some (dec_row g r) | None => None end.
 
 (* --- DECIMAL(w,s) values: the integer v stands for v / 10^s.  An input literal is m / 10^e (e >= 0). *)
 Definition round_half_away (a d : Z) : Z := Z.sgn a * ((2 * Z.abs a + d) / (2 * d)).   (* a / d, d > 0 *)
